@@ -1,7 +1,7 @@
 (* C11/Exec.v -- the model instantiated with the Gallina HMAC (what is extracted
    and run against the implementation, which uses ring). *)
 From Coq Require Import NArith List.
-From DV Require Import Base.Outcome Base.Bytes Base.Names C11.Sha C11.Hmac C11.Gen C11.Model.
+From DV Require Import Base.Outcome Base.Bytes Base.Names C11.Sha C11.Hmac C11.Gen C11.Model C11.Generate.
 Import ListNotations.
 
 Definition hmac_of (a : alg) : bytes -> bytes -> bytes :=
@@ -10,6 +10,7 @@ Definition hmac_of (a : alg) : bytes -> bytes -> bytes :=
   end.
 
 Definition c11_key_new := key_new.
+Definition c11_key_generate := key_generate.
 Definition c11_client_request := client_request hmac_of.
 Definition c11_server_request := server_request hmac_of.
 Definition c11_server_answer := server_answer hmac_of.
